@@ -29,6 +29,7 @@ static int build(int cfg)
     nc_defaults();
     MSPT = mc_opt("slow", 0) ? 10 : 1; NC.freq = 1000 / MSPT;
     NENT = C[cfg].n; NC.n_hbc = NENT;
+    if (mc_opt("pool", 0)) NC.tmr_n = NENT;      /* --opt pool=1: exactly one timer per entry, no spare - a consumer that needs a second timer while it re-arms goes dead */
     for (int i = 0; i < NENT; i++) { NC.hbc[i].node = C[cfg].node[i]; NC.hbc[i].time = (uint16_t)(C[cfg].time[i] * MSPT); }
     nc_build();
     (void)CONodeGetErr(&Node);
